@@ -45,10 +45,10 @@ WORKERS = {"quick": 1, "thorough": 14}
 
 def gen_cases(ctx):
     rng = ctx.rng
-    for i in range(ctx.scale(600, 20000)):
+    for i in range(ctx.scale(5000, 120000)):
         inst = gen.gen_instance(rng, None, max_jobs=rng.choice([2, 3, 4, 5]), max_machines=rng.choice([2, 3, 4, 5]))
         yield {"kind": "builders", "instance": inst, "seed": rng.randrange(2**31)}
-    for i in range(ctx.scale(300, 12000)):
+    for i in range(ctx.scale(2500, 60000)):
         inst = gen.gen_instance(rng, rng.choice(gen.POSITIVE_CLASSES), max_jobs=rng.choice([2, 3, 4, 5]),
                                 max_machines=rng.choice([2, 3, 4]))
         yield {"kind": "solved", "instance": inst, "seed": rng.randrange(2**31),
